@@ -265,6 +265,13 @@ WithinMinQuantum(r, n, d) ==
   LET a == MulPow10(Mul(r.c, d), r.q - Emin)       \* r * d / 10^Emin
       b == n                                        \* would need n * 10^-Emin: compare a * 10^Emin-scaled instead
   IN Le(AbsDiff(MulPow10(a, 0), MulPow10(n, 0 - Emin)), d)
+\* when may a conversion that is only required to be accurate to 2 parts in 10^33 return a zero for the positive magnitude
+\* n/d?  Below the flush threshold 10^(Emin-1) always; up to half the smallest subnormal under the nearest modes; below one
+\* smallest subnormal under the modes that round this sign toward zero (0.1 % slack for the permitted error)
+ZeroAllowed(neg, n, d, m) ==
+  \/ CmpVC(MulSmall(n, 1000), d, 0, FromInt(1001), Emin - 1) < 0
+  \/ (m \in {RNE, RNA} /\ CmpVC(MulSmall(n, 2000), d, 0, FromInt(1001), Emin) <= 0)
+  \/ ((m = RTZ \/ (m = RNI /\ ~neg) \/ (m = RPI /\ neg)) /\ CmpVC(MulSmall(n, 1000), d, 0, FromInt(1001), Emin) < 0)
 IntVerdict(e) ==
   LET x == Decode(e.x) IN
   CASE e.op = "FromInt64" -> LET r == Decode(e.r) IN
@@ -287,7 +294,7 @@ IntVerdict(e) ==
          ELSE IF NumDigits(e.num.l) <= 34 /\ NumDigits(e.den.l) <= 34 THEN Agrees(Rnd(e.num.neg, e.num.l, e.den.l, 0), r, mode)
          ELSE IF r.k = "nan" \/ r.neg # e.num.neg THEN "reject"
          ELSE IF r.k = "inf" THEN B2S(CmpVC(MulSmall(e.num.l, 1000), e.den.l, 0, MulSmall(Cmax, 999), Emax) > 0)
-         ELSE IF IsZero(r) THEN B2S(CmpVC(MulSmall(e.num.l, 1000), e.den.l, 0, FromInt(1001), Emin - 1) < 0)
+         ELSE IF IsZero(r) THEN B2S(ZeroAllowed(r.neg, e.num.l, e.den.l, mode))
          ELSE B2S(RelErrLe(r.c, r.q, e.num.l, e.den.l, 0, <<2>>, Pow10(33)) \/ WithinMinQuantum(r, e.num.l, e.den.l))
 
 \* C09
@@ -327,7 +334,7 @@ FloatVerdict(e) ==
          ELSE LET br == BinRat(e.f.m, e.f.e) IN
               IF r.k = "nan" \/ r.neg # e.f.neg THEN "reject"
               ELSE IF r.k = "inf" THEN B2S(CmpVC(MulSmall(br[1], 1000), br[2], 0, MulSmall(Cmax, 999), Emax) > 0)
-              ELSE IF IsZero(r) THEN B2S(CmpVC(MulSmall(br[1], 1000), br[2], 0, FromInt(1001), Emin - 1) < 0)
+              ELSE IF IsZero(r) THEN B2S(ZeroAllowed(r.neg, br[1], br[2], mode))
               ELSE B2S(RelErrLe(r.c, r.q, br[1], br[2], 0, <<2>>, Pow10(33)) \/ WithinMinQuantum(r, br[1], br[2]))
 
 \* numeric oracle (enclosures): see Encl.tla
